@@ -14,10 +14,13 @@ type Faults struct {
 	n      int64 // fault points passed so far
 	FailAt int64 // 1-based index of the point to fail (0 = never)
 	Short  bool  // fail a Write after having written all but the last byte: (n-1, error)
-	mu     sync.Mutex
-	Fired  string // description of the point that failed
-	Trace  []string
-	Keep   bool // keep a trace of all points (dry run)
+	// Buffered models a stream that flushes on Close (page cache, network): writers collect their
+	// data and hand it to the underlying stream only in Close; a failing Close then stores nothing.
+	Buffered bool
+	mu       sync.Mutex
+	Fired    string // description of the point that failed
+	Trace    []string
+	Keep     bool // keep a trace of all points (dry run)
 }
 
 // ErrInjected marks injected failures.
@@ -166,9 +169,17 @@ type faultWriter struct {
 	w    filesystem.Writer
 	f    *Faults
 	name string
+	buf  []byte
 }
 
 func (w *faultWriter) Write(p []byte) (int, error) {
+	if w.f.Buffered {
+		if err := w.f.hit(w.name + ".Write"); err != nil {
+			return 0, err
+		}
+		w.buf = append(w.buf, p...)
+		return len(p), nil
+	}
 	if err := w.f.hit(w.name + ".Write"); err != nil {
 		if w.f.Short && len(p) > 0 {
 			n, _ := w.w.Write(p[:len(p)-1])
@@ -181,6 +192,12 @@ func (w *faultWriter) Write(p []byte) (int, error) {
 
 func (w *faultWriter) Close() error {
 	err := w.f.hit(w.name + ".Close")
+	if w.f.Buffered && err == nil && len(w.buf) > 0 {
+		if _, werr := w.w.Write(w.buf); werr != nil {
+			w.w.Close()
+			return werr
+		}
+	}
 	cerr := w.w.Close()
 	if err != nil {
 		return err
